@@ -224,10 +224,13 @@ def find_peaks(data, threshold, *, box_size=3, footprint=None, mask=None,
         if not callable(centroid_func):
             raise TypeError('centroid_func must be a callable object')
 
-        x_centroids, y_centroids = centroid_sources(
-            data, x_peaks, y_peaks, box_size=box_size,
-            footprint=footprint, error=error, mask=mask,
-            centroid_func=centroid_func)
+        if len(x_peaks) == 0:  # e.g., npeaks=0
+            x_centroids = y_centroids = np.array([], dtype=float)
+        else:
+            x_centroids, y_centroids = centroid_sources(
+                data, x_peaks, y_peaks, box_size=box_size,
+                footprint=footprint, error=error, mask=mask,
+                centroid_func=centroid_func)
 
         table['x_centroid'] = x_centroids
         table['y_centroid'] = y_centroids
